@@ -28,7 +28,7 @@ func FuzzRun(f *testing.F) {
 		f.Add(s, false)
 	}
 	f.Fuzz(func(t *testing.T, src string, mach bool) {
-		c := RunCase{Src: src, Grammar: "expr", Mode: "current"}
+		c := RunCase{Src: fw.BStr(src), Grammar: "expr", Mode: "current"}
 		if mach {
 			c.Mode = "mach"
 		}
